@@ -215,6 +215,15 @@ impl Pre {
         )
         .await
         .map_err(|e| format!("{e:?}"))?;
+        // probe: the party's own x | y | r shares handed to Pi_aAND (read-only)
+        for (idx, s) in xyz.iter().enumerate() {
+            let mut bytes = vec![s.0 as u8];
+            for (m, k) in s.1.0.iter() {
+                bytes.extend_from_slice(&m.0.to_le_bytes());
+                bytes.extend_from_slice(&k.0.to_le_bytes());
+            }
+            probe("pre.xyz", idx, &bytes);
+        }
         let out = faand::beaver_aand(
             (channel, self.delta),
             &and_shares,
